@@ -147,7 +147,7 @@ fn scripts(depth: usize) -> Vec<Vec<Ev>> {
 
 fn histories_sub(tier: Tier) -> Sub {
   let mut sub = Sub::new("pubsub-histories", "E3");
-  let depth = tier.pick(4, 5);
+  let depth = tier.pick(4, 6);
   sub.rule = "case = one world per script of exactly `depth` events over {subscribe/unsubscribe one of 4 topics, publish one of 5 first frames as a single frame, publish 2 of them as a 3-frame message} x transport, each event followed by quiescence; non-trivial = some subscription was active when something was published; oracle: the SUB application receives exactly the publications whose first frame has an active subscription as a byte-prefix, whole, in publication order, once".into();
   let sc = scripts(depth);
   let mut work = vec![];
@@ -537,7 +537,7 @@ pub fn add_world_subs(rep: &mut Report, tier: Tier) {
 pub fn replay(w: &Value) -> Result<String, String> {
   if w["sub"] == "pubsub-histories" {
     let tr = if w["transport"] == "Zmtp" { Tr::Zmtp } else { Tr::Inproc };
-    for d in [4usize, 5] {
+    for d in [4usize, 5, 6] {
       if let Some(sc) = scripts(d).into_iter().find(|s| w["script"] == format!("{:?}", s)) {
         let r = history_world(tr, &sc);
         if !r.panics.is_empty() {
